@@ -1066,11 +1066,15 @@ namespace xsimd
             using int_type = as_integer_t<T>;
             using i_type = batch<int_type, A>;
             i_type m1f = constants::mask1frexp<batch_type>();
-            i_type r1 = m1f & ::xsimd::bitwise_cast<int_type>(self);
-            batch_type x = self & ::xsimd::bitwise_cast<T>(~m1f);
+            // subnormal values are scaled into the normal range first
+            auto is_subnormal = abs(self) < constants::smallestposval<batch_type>();
+            batch_type y = select(is_subnormal, self * constants::twotonmb<batch_type>(), self);
+            i_type r1 = m1f & ::xsimd::bitwise_cast<int_type>(y);
+            batch_type x = y & ::xsimd::bitwise_cast<T>(~m1f);
             exp = (r1 >> constants::nmb<batch_type>()) - constants::maxexponentm1<batch_type>();
+            exp = select(batch_bool_cast<typename i_type::value_type>(is_subnormal), exp - i_type(int_type(constants::nmb<batch_type>())), exp);
             exp = select(batch_bool_cast<typename i_type::value_type>(self != batch_type(0.)), exp, i_type(typename i_type::value_type(0)));
-            return select((self != batch_type(0.)), x | ::xsimd::bitwise_cast<T>(constants::mask2frexp<batch_type>()), batch_type(0.));
+            return select((self != batch_type(0.)), x | ::xsimd::bitwise_cast<T>(constants::mask2frexp<batch_type>()), self);
         }
 
         // from bool
